@@ -9,7 +9,12 @@
 (* remove_pase), sc/case (sessions and resumption records carry a fabric   *)
 (* index), lib.rs (startup from the key-value store, lazily persisted      *)
 (* resumption cache).  Two administrators (controllers) with their own     *)
-(* root CAs; each has at most one PASE and one CASE session to the node.   *)
+(* root CAs; each has at most one PASE and two CASE sessions to the node   *)
+(* (n = 1, 2: RemoveFabric and the rollback must take all of them).        *)
+(* FactoryReset = Matter::factory_reset followed by a restart.             *)
+(* The staged root certificate (FailSafe::root_ca) is not a variable: the  *)
+(* code never clears the buffer, only the per-context flag "root" says     *)
+(* whether it may be used - which is what Check models.                    *)
 (* `gen` is a history counter (the incarnation of the fabric at an index)  *)
 (* that exists only in the model.                                          *)
 (* Variant "orig" = the code as found; "fixed" = with the repairs:         *)
@@ -29,7 +34,7 @@ Idx == 1..MaxIdx
 VARIABLES fabrics,   \* [Idx -> [own, gen, ver]]   own = 0: absent; ver = label / ACL version
           kv,        \* persisted copy, same shape
           fs,        \* fail-safe: [armed, c, mode, fab, flags]
-          sess,      \* set of [c, mode, fab, gen, expired]
+          sess,      \* set of [c, mode, fab, gen, expired, n]
           resum,     \* in-memory resumption cache: set of [c, fab, gen]
           resumKv,   \* its persisted copy
           nextGen,
@@ -50,13 +55,13 @@ Log(op) == h' = Append(h, op) /\ nops' = nops + 1
 Present(i) == fabrics[i].own # 0
 S(c, m) == {s \in sess : s.c = c /\ s.mode = m /\ ~s.expired}
 Has(c, m) == S(c, m) # {}
-The(c, m) == CHOOSE s \in S(c, m) : TRUE
-Replace(c, m, new) == {s \in sess : ~(s.c = c /\ s.mode = m)} \cup {new}
+The(c, m) == CHOOSE s \in S(c, m) : \A t \in S(c, m) : s.n <= t.n
+Replace(c, m, new) == {s \in sess : ~(s.c = c /\ s.mode = m /\ s.n = new.n)} \cup {new}
 RemovePase(t) == {s \in t : s.mode # "pase"}
 SameCtx(s) == fs.armed /\ fs.fab = s.fab /\ fs.mode = s.mode /\ (s.mode = "pase" => fs.c = s.c)
 
 \* PASE established (the harness opens a window when needed): auto-arms the fail-safe
-Pase(c) == /\ ~stuck /\ sess' = Replace(c, "pase", [c |-> c, mode |-> "pase", fab |-> 0, gen |-> 0, expired |-> FALSE])
+Pase(c) == /\ ~stuck /\ sess' = Replace(c, "pase", [c |-> c, mode |-> "pase", fab |-> 0, gen |-> 0, expired |-> FALSE, n |-> 1])
            /\ IF ~fs.armed THEN /\ fs' = [armed |-> TRUE, c |-> c, mode |-> "pase", fab |-> 0, flags |-> {}]
                                 /\ snap' = [fabrics |-> fabrics, kv |-> kv]
               ELSE UNCHANGED <<fs, snap>>
@@ -93,10 +98,16 @@ AddNoc(c, m) ==
 \* the administrator opens (or re-uses) its operational session: needs a fabric of its root on the node
 Case(c) == /\ ~stuck /\ \E f \in Idx : fabrics[f].own = c
            /\ LET f == CHOOSE f \in Idx : fabrics[f].own = c IN
-              /\ sess' = Replace(c, "case", [c |-> c, mode |-> "case", fab |-> f, gen |-> fabrics[f].gen, expired |-> FALSE])
+              /\ sess' = Replace(c, "case", [c |-> c, mode |-> "case", fab |-> f, gen |-> fabrics[f].gen, expired |-> FALSE, n |-> 1])
               /\ resum' = {r \in resum : r.c # c} \cup {[c |-> c, fab |-> f, gen |-> fabrics[f].gen]}
            /\ Log([op |-> "Read", c |-> c, fresh |-> TRUE])
            /\ UNCHANGED <<fabrics, kv, fs, resumKv, nextGen, snap, stuck, acked>>
+\* one more operational session of the same administrator, next to the one it holds
+Case2(c) == /\ ~stuck /\ Has(c, "case") /\ \E f \in Idx : fabrics[f].own = c
+            /\ LET f == CHOOSE f \in Idx : fabrics[f].own = c IN
+               sess' = Replace(c, "case", [c |-> c, mode |-> "case", fab |-> f, gen |-> fabrics[f].gen, expired |-> FALSE, n |-> 2])
+            /\ Log([op |-> "Case", c |-> c])
+            /\ UNCHANGED <<fabrics, kv, fs, resum, resumKv, nextGen, snap, stuck, acked>>
 \* a request over the operational session the administrator already holds
 Use(c) == /\ ~stuck /\ Has(c, "case") /\ Log([op |-> "Read", c |-> c, fresh |-> FALSE])
           /\ UNCHANGED <<fabrics, kv, fs, sess, resum, resumKv, nextGen, snap, stuck, acked>>
@@ -153,11 +164,17 @@ Restart == /\ fabrics' = kv /\ fs' = Idle /\ sess' = {} /\ stuck' = FALSE
            /\ Log([op |-> "Restart"])
            /\ UNCHANGED <<kv, resumKv, nextGen, snap, acked>>
 
+\* Matter::factory_reset, then a power cycle: nothing of any fabric is left, in memory or in the store
+FactoryReset == /\ fabrics' = [i \in Idx |-> NULL] /\ kv' = [i \in Idx |-> NULL] /\ acked' = [i \in Idx |-> NULL]
+                /\ fs' = Idle /\ sess' = {} /\ resum' = {} /\ resumKv' = {} /\ stuck' = FALSE
+                /\ Log([op |-> "FactoryReset"])
+                /\ UNCHANGED <<nextGen, snap>>
+
 Next == /\ nops < MaxOps
-        /\ \/ \E c \in Ctl : Pase(c) \/ Case(c) \/ Use(c) \/ Label(c) \/ Complete(c)
+        /\ \/ \E c \in Ctl : Pase(c) \/ Case(c) \/ Case2(c) \/ Use(c) \/ Label(c) \/ Complete(c)
            \/ \E c \in Ctl, m \in {"pase", "case"} : Arm(c, m) \/ ArmZero(c, m) \/ Csr(c, m) \/ AddRoot(c, m) \/ AddNoc(c, m)
            \/ \E c \in Ctl, f \in Idx : RemoveFabric(c, f)
-           \/ ExpireTimer \/ PersistResum \/ Restart
+           \/ ExpireTimer \/ PersistResum \/ Restart \/ FactoryReset
 Spec == Init /\ [][Next]_vars
 
 (* ---- the properties on the model ---- *)
